@@ -22,7 +22,7 @@ static std::string verdictOf(const std::string & msg, bool & named)
   for (auto & e : ends) {
     std::string end = e.first;
     if (msg.size() >= end.size() && msg.compare(msg.size() - end.size(), end.size(), end) == 0) {
-      named = msg == NAME + end;
+      named = msg.find(NAME) != std::string::npos;        // the message names the checked quantity
       return e.second;
     }
   }
